@@ -16,7 +16,7 @@ func checkC09(r *Run) {
 	ruleA12Reset(r, p, "newEvent", "Event") // a recycled Event/Array starts empty: no value of a dropped event is carried into the next (C05's rule)
 	ruleA12Reset(r, p, "Arr", "Array")
 	ruleDurationArithmetic(r, p, "DUR") // durations: integer quotient / float quotient, never rounded through the other domain
-	ruleFloatWidth(r, p) // floats: head byte, width and the three non-finite bit patterns
+	ruleFloatWidth(r, p)                // floats: head byte, width and the three non-finite bit patterns
 	ruleA6(r, p, []string{cborRel})
 	if r.Tier == "thorough" {
 		if p32 := r.Use("B32"); p32 != nil {
